@@ -98,6 +98,8 @@ pub struct PartCfg {
     pub hang_is_violation: bool,
     /// is a worker abort / heap-cap hit a violation of this property? if false it is counted as inconclusive
     pub crash_is_violation: bool,
+    /// is crossing the heap cap a violation of this property? (memory bounds are C03's subject)
+    pub heapcap_is_violation: bool,
     pub threads: usize,
     /// enumerated part covers its finite domain completely
     pub exhaustive: bool,
@@ -116,6 +118,7 @@ impl PartCfg {
             heap_cap: 2 << 30,
             hang_is_violation: false,
             crash_is_violation: true,
+            heapcap_is_violation: true,
             threads: default_threads(),
             exhaustive: false,
             shrink_budget: 1500,
@@ -135,6 +138,10 @@ impl PartCfg {
     }
     pub fn hang_is_violation(mut self, b: bool) -> Self {
         self.hang_is_violation = b;
+        self
+    }
+    pub fn heapcap_is_violation(mut self, b: bool) -> Self {
+        self.heapcap_is_violation = b;
         self
     }
     pub fn crash_is_violation(mut self, b: bool) -> Self {
@@ -318,6 +325,9 @@ impl<'a, C: CaseT> Evaluator<'a, C> {
                         Ok(r) => EvalOut { v: r.v, cpu_us: r.cpu_us, peak: r.peak, inconclusive: false },
                         Err(e) => EvalOut { v: Verdict::discard(format!("bad worker frame: {e}")), cpu_us: 0, peak: 0, inconclusive: true },
                     },
+                    worker::Reply::Died { code, .. } if code == Some(alloc::HEAPCAP_EXIT) && !cfg.heapcap_is_violation => {
+                        EvalOut { v: Verdict::discard("heap cap crossed: not this property's subject".to_string()), cpu_us: 0, peak: cfg.heap_cap as u64, inconclusive: true }
+                    }
                     worker::Reply::Died { signal, code } if !cfg.crash_is_violation => {
                         EvalOut { v: Verdict::discard(format!("worker died (signal {signal:?}, code {code:?}): not this property's subject")), cpu_us: 0, peak: 0, inconclusive: true }
                     }
